@@ -72,6 +72,10 @@ def _canon(e, keep_sites, _d):
         return e[2]
     if k == "l":
         return "_"
+    if k == "lv":
+        return "%s@loop" % (e[3] or "_")
+    if k == "cparam":
+        return e[1]
     if k == "call":
         s = "%s(%s)" % (last2(e[1]), ",".join(canon(a, keep_sites) for a in e[2]))
         return s + ("@%d" % e[3] if keep_sites else "")
